@@ -53,19 +53,15 @@ func main() {
 		kind := fs.String("kind", "exact", "generator: exact | racy")
 		work := fs.String("work", "", "scratch directory (badger)")
 		settle := fs.Int("settle", 0, "extra settle time per step in ms")
+		first := fs.Int("first", 0, "index of the first session")
+		rabbit := fs.Int("rabbit", -1, "force dialect: 1 rabbit, 0 0-9-1, -1 random")
+		engine := fs.String("engine", "", "force engine: buntdb | badger | empty = random")
 		fs.Parse(os.Args[2:])
-		w := bufio.NewWriter(os.Stdout)
-		defer w.Flush()
 		for i := 0; i < *n; i++ {
-			out, err := genSession(*seed, i, *steps, *kind, *work, time.Duration(*settle)*time.Millisecond)
-			if err != nil {
+			if err := genSession(*seed, *first+i, *steps, *kind, *work, time.Duration(*settle)*time.Millisecond, *rabbit, *engine); err != nil {
 				fmt.Fprintln(os.Stderr, "error:", err)
 				os.Exit(2)
 			}
-			b, _ := json.Marshal(out)
-			w.Write(b)
-			w.WriteString("\n")
-			w.Flush()
 		}
 	case "replay":
 		// replay <rabbit 0|1> <engine> <settle ms> < ops on stdin, one per line
